@@ -140,6 +140,10 @@ func getAlignmentDims(f io.Reader) (int, int, error) {
 	for s.Scan() {
 		line := s.Text()
 
+		if len(line) == 0 {
+			continue
+		}
+
 		if string(line[0]) == ">" {
 			n++
 		}
@@ -263,6 +267,10 @@ func ReadAlignment(f io.Reader, chnl chan FastaRecord, cErr chan error, cdone ch
 	for s.Scan() {
 		line := s.Text()
 
+		if len(line) == 0 {
+			continue
+		}
+
 		if first {
 
 			if len(line) == 0 || string(line[0]) != ">" {
@@ -271,6 +279,10 @@ func ReadAlignment(f io.Reader, chnl chan FastaRecord, cErr chan error, cdone ch
 			}
 
 			description = line[1:]
+			if len(strings.Fields(description)) == 0 {
+				cErr <- errors.New("badly formatted fasta file: header without an ID")
+				return
+			}
 			id = strings.Fields(description)[0]
 
 			first = false
@@ -289,6 +301,10 @@ func ReadAlignment(f io.Reader, chnl chan FastaRecord, cErr chan error, cdone ch
 			counter++
 
 			description = line[1:]
+			if len(strings.Fields(description)) == 0 {
+				cErr <- errors.New("badly formatted fasta file: header without an ID")
+				return
+			}
 			id = strings.Fields(description)[0]
 			seqBuffer = ""
 
@@ -355,6 +371,10 @@ func ReadEncodeAlignment(f io.Reader, hardGaps bool, chnl chan EncodedFastaRecor
 	for s.Scan() {
 		line = s.Bytes()
 
+		if len(line) == 0 {
+			continue
+		}
+
 		if first {
 
 			if len(line) == 0 || line[0] != '>' {
@@ -363,6 +383,10 @@ func ReadEncodeAlignment(f io.Reader, hardGaps bool, chnl chan EncodedFastaRecor
 			}
 
 			description = string(line[1:])
+			if len(strings.Fields(description)) == 0 {
+				cErr <- errors.New("badly formatted fasta file: header without an ID")
+				return
+			}
 			id = strings.Fields(description)[0]
 
 			first = false
@@ -381,6 +405,10 @@ func ReadEncodeAlignment(f io.Reader, hardGaps bool, chnl chan EncodedFastaRecor
 			counter++
 
 			description = string(line[1:])
+			if len(strings.Fields(description)) == 0 {
+				cErr <- errors.New("badly formatted fasta file: header without an ID")
+				return
+			}
 			id = strings.Fields(description)[0]
 			seqBuffer = make([]byte, 0)
 
@@ -460,6 +488,10 @@ func ReadEncodeScoreAlignment(f io.Reader, hardGaps bool, chnl chan EncodedFasta
 	for s.Scan() {
 		line = s.Bytes()
 
+		if len(line) == 0 {
+			continue
+		}
+
 		if first {
 
 			if len(line) == 0 || line[0] != '>' {
@@ -468,6 +500,10 @@ func ReadEncodeScoreAlignment(f io.Reader, hardGaps bool, chnl chan EncodedFasta
 			}
 
 			description = string(line[1:])
+			if len(strings.Fields(description)) == 0 {
+				cErr <- errors.New("badly formatted fasta file: header without an ID")
+				return
+			}
 			id = strings.Fields(description)[0]
 
 			first = false
@@ -490,6 +526,10 @@ func ReadEncodeScoreAlignment(f io.Reader, hardGaps bool, chnl chan EncodedFasta
 			counter++
 
 			description = string(line[1:])
+			if len(strings.Fields(description)) == 0 {
+				cErr <- errors.New("badly formatted fasta file: header without an ID")
+				return
+			}
 			id = strings.Fields(description)[0]
 			seqBuffer = make([]byte, 0)
 			score = 0
@@ -574,6 +614,10 @@ func ReadEncodeAlignmentToList(f io.Reader, hardGaps bool) ([]EncodedFastaRecord
 	for s.Scan() {
 		line = s.Bytes()
 
+		if len(line) == 0 {
+			continue
+		}
+
 		if first {
 
 			if len(line) == 0 || line[0] != '>' {
@@ -581,6 +625,9 @@ func ReadEncodeAlignmentToList(f io.Reader, hardGaps bool) ([]EncodedFastaRecord
 			}
 
 			description = string(line[1:])
+			if len(strings.Fields(description)) == 0 {
+				return []EncodedFastaRecord{}, errors.New("badly formatted fasta file: header without an ID")
+			}
 			id = strings.Fields(description)[0]
 
 			first = false
@@ -598,6 +645,9 @@ func ReadEncodeAlignmentToList(f io.Reader, hardGaps bool) ([]EncodedFastaRecord
 			counter++
 
 			description = string(line[1:])
+			if len(strings.Fields(description)) == 0 {
+				return []EncodedFastaRecord{}, errors.New("badly formatted fasta file: header without an ID")
+			}
 			id = strings.Fields(description)[0]
 			seqBuffer = make([]byte, 0)
 
